@@ -1,1 +1,2 @@
 pub mod threads;
+pub mod totality;
